@@ -621,6 +621,7 @@ func (txn *Txn) commitAndSend() (func() error, error) {
 		orc.trackTxnConflict()
 		return nil, utils.ErrConflict
 	}
+	utils.VerifYield("txn.commit.assigned", commitTs)
 
 	setVersion := func(e *kv.Entry) {
 		if e.Version == 0 {
